@@ -8,15 +8,15 @@ open Hms.Core Hms.Core.Comp
 
 theorem cg_loops_irrel (mod fn : String) (φ : String → Option String) : ∀ (n : Nat),
     (∀ (il rt : Bool) (loops loops' : List (String × String)) (st : Stmt) (env : CEnv), Frag.depthGS st ≤ n →
-      Frag.okGS il rt st = true → (il = true → loops.head? = loops'.head?) →
+      Frag.okFS fr il rt st = true → (il = true → loops.head? = loops'.head?) →
       cgS mod fn φ loops st env = cgS mod fn φ loops' st env ∧
       Frag.wsGS mod fn φ loops st env = Frag.wsGS mod fn φ loops' st env) ∧
     (∀ (il rt : Bool) (loops loops' : List (String × String)) (ss : List Stmt) (env : CEnv), Frag.depthGSs ss ≤ n →
-      Frag.okGSs il rt ss = true → (il = true → loops.head? = loops'.head?) →
+      Frag.okFSs fr il rt ss = true → (il = true → loops.head? = loops'.head?) →
       cgSs mod fn φ loops ss env = cgSs mod fn φ loops' ss env ∧
       Frag.wsGSs mod fn φ loops ss env = Frag.wsGSs mod fn φ loops' ss env) ∧
     (∀ (il rt : Bool) (loops loops' : List (String × String)) (b : Block) (env : CEnv), Frag.depthGBS b ≤ n →
-      Frag.okGBS il rt b = true → (il = true → loops.head? = loops'.head?) →
+      Frag.okFBS fr il rt b = true → (il = true → loops.head? = loops'.head?) →
       cgBS mod fn φ loops b env = cgBS mod fn φ loops' b env ∧
       Frag.wsGBS mod fn φ loops b env = Frag.wsGBS mod fn φ loops' b env) := by
   intro n
@@ -31,11 +31,20 @@ theorem cg_loops_irrel (mod fn : String) (φ : String → Option String) : ∀ (
     refine ⟨?_, ?_, ?_⟩
     · intro il rt loops loops' st env hd hok hh
       cases st
-      case typedef | trigger | forS => simp [Frag.okGS] at hok
+      case typedef | trigger => simp [Frag.okFS] at hok
+      case forS sp name vty iter body =>
+        obtain ⟨bsp, bty, stmts, boe⟩ := body
+        cases iter <;> try (simp [Frag.okFS] at hok; done)
+        cases boe <;> try (simp [Frag.okFS] at hok; done)
+        simp only [Frag.okFS, Bool.and_eq_true] at hok
+        simp only [Frag.depthGS] at hd
+        have h := fun (bc : String × String) env' => ihSs true rt (bc :: loops) (bc :: loops') stmts env' (by omega) hok.2
+          (fun _ => rfl)
+        simp only [cgS, Frag.wsGS, (h _ _).1, (h _ _).2, and_self]
       case letS sp name vty nc oty e => cases nc <;> exact ⟨rfl, rfl⟩
       case ret sp oe => cases oe <;> exact ⟨rfl, rfl⟩
       case brk sp =>
-        simp only [Frag.okGS] at hok
+        simp only [Frag.okFS] at hok
         have := hh hok
         cases loops <;> cases loops' <;> simp at this
         · exact ⟨rfl, rfl⟩
@@ -45,7 +54,7 @@ theorem cg_loops_irrel (mod fn : String) (φ : String → Option String) : ∀ (
           obtain ⟨rfl, rfl⟩ := this
           exact ⟨rfl, rfl⟩
       case cont sp =>
-        simp only [Frag.okGS] at hok
+        simp only [Frag.okFS] at hok
         have := hh hok
         cases loops <;> cases loops' <;> simp at this
         · exact ⟨rfl, rfl⟩
@@ -55,7 +64,7 @@ theorem cg_loops_irrel (mod fn : String) (φ : String → Option String) : ∀ (
           obtain ⟨rfl, rfl⟩ := this
           exact ⟨rfl, rfl⟩
       case whileS sp c body =>
-        simp only [Frag.okGS, Bool.and_eq_true] at hok
+        simp only [Frag.okFS, Bool.and_eq_true] at hok
         simp only [Frag.depthGS] at hd
         have h := fun env' => ihB true rt
           (((freshLabel mod (freshLabel mod env.lm "loop_head").2 "loop_end").1,
@@ -64,7 +73,7 @@ theorem cg_loops_irrel (mod fn : String) (φ : String → Option String) : ∀ (
             (freshLabel mod env.lm "loop_head").1) :: loops') body env' (by omega) hok.2 (fun _ => rfl)
         simp only [cgS, Frag.wsGS, (h _).1, (h _).2, and_self]
       case loopS sp body =>
-        simp only [Frag.okGS] at hok
+        simp only [Frag.okFS] at hok
         simp only [Frag.depthGS] at hd
         have h := fun env' => ihB true rt
           (((freshLabel mod (freshLabel mod env.lm "loop_head").2 "loop_end").1,
@@ -73,36 +82,36 @@ theorem cg_loops_irrel (mod fn : String) (φ : String → Option String) : ∀ (
             (freshLabel mod env.lm "loop_head").1) :: loops') body env' (by omega) hok (fun _ => rfl)
         simp only [cgS, Frag.wsGS, (h _).1, (h _).2, and_self]
       case exprS sp e =>
-        cases e <;> try (simp [Frag.okGS] at hok; done)
+        cases e <;> try (simp [Frag.okFS] at hok; done)
         case assign asp op l r =>
-          cases op <;> cases l <;> try (simp [Frag.okGS] at hok; done)
-          all_goals (rename_i g _ sg; cases g <;> cases sg <;> first | exact ⟨rfl, rfl⟩ | simp [Frag.okGS] at hok)
+          cases op <;> cases l <;> try (simp [Frag.okFS] at hok; done)
+          all_goals (rename_i g _ sg; cases g <;> cases sg <;> first | exact ⟨rfl, rfl⟩ | simp [Frag.okFS] at hok)
         case call csp cty base args sw =>
-          cases base <;> try (simp [Frag.okGS] at hok; done)
+          cases base <;> try (simp [Frag.okFS] at hok; done)
           exact ⟨rfl, rfl⟩
         case ifE isp ty c t el =>
           cases el with
           | some eb =>
-            simp only [Frag.okGS, Bool.and_eq_true] at hok
+            simp only [Frag.okFS, Bool.and_eq_true] at hok
             simp only [Frag.depthGS] at hd
             have h1 := fun env' => ihB il rt loops loops' t env' (by omega) hok.1.2 hh
             have h2 := fun env' => ihB il rt loops loops' eb env' (by omega) hok.2 hh
             simp only [cgS, Frag.wsGS, (h1 _).1, (h1 _).2, (h2 _).1, (h2 _).2, and_self]
           | none =>
-            simp only [Frag.okGS, Bool.and_eq_true] at hok
+            simp only [Frag.okFS, Bool.and_eq_true] at hok
             simp only [Frag.depthGS] at hd
             have h1 := fun env' => ihB il rt loops loops' t env' (by omega) hok.2 hh
             simp only [cgS, Frag.wsGS, (h1 _).1, (h1 _).2, and_self]
         case matchE msp ty c arms dflt =>
           cases dflt with
-          | none => simp [Frag.okGS] at hok
+          | none => simp [Frag.okFS] at hok
           | some d =>
-            cases d <;> try (simp [Frag.okGS] at hok; done)
+            cases d <;> try (simp [Frag.okFS] at hok; done)
             rename_i db
-            simp only [Frag.okGS, Bool.and_eq_true] at hok
+            simp only [Frag.okFS, Bool.and_eq_true] at hok
             simp only [Frag.depthGS] at hd
             have harms : ∀ (arms : List (List Expr × Expr)) (after : String) (nms : List String) (env' : CEnv),
-                Frag.depthGArmsS arms ≤ n → Frag.okGArmsS il rt arms = true →
+                Frag.depthGArmsS arms ≤ n → Frag.okFArmsS fr il rt arms = true →
                 cgArmsS mod fn φ loops msp after arms nms env' = cgArmsS mod fn φ loops' msp after arms nms env' ∧
                 Frag.wsGArmsS mod fn φ loops arms env' = Frag.wsGArmsS mod fn φ loops' arms env' := by
               intro arms
@@ -111,9 +120,9 @@ theorem cg_loops_irrel (mod fn : String) (φ : String → Option String) : ∀ (
               | cons a rest iha =>
                 intro after nms env' hda hoka
                 obtain ⟨lits, act⟩ := a
-                cases act <;> try (simp [Frag.okGArmsS] at hoka; done)
+                cases act <;> try (simp [Frag.okFArmsS] at hoka; done)
                 rename_i b
-                simp only [Frag.okGArmsS, Bool.and_eq_true] at hoka
+                simp only [Frag.okFArmsS, Bool.and_eq_true] at hoka
                 simp only [Frag.depthGArmsS] at hda
                 have h1 := fun env'' => ihB il rt loops loops' b env'' (by omega) hoka.1.2 hh
                 have h2 := fun nms' env'' => iha after nms' env'' (by omega) hoka.2
@@ -129,9 +138,9 @@ theorem cg_loops_irrel (mod fn : String) (φ : String → Option String) : ∀ (
         case tryE tsp ty t ci c =>
           obtain ⟨csp', cty', cstmts, coe⟩ := c
           cases coe with
-          | some _ => simp [Frag.okGS, Frag.okGBS] at hok
+          | some _ => simp [Frag.okFS, Frag.okFBS] at hok
           | none =>
-            simp only [Frag.okGS, Frag.okGBS, Bool.and_eq_true] at hok
+            simp only [Frag.okFS, Frag.okFBS, Bool.and_eq_true] at hok
             simp only [Frag.depthGS, Frag.depthGBS] at hd
             have h2 := fun env' => ihSs il rt loops loops' cstmts env' (by omega) hok.2 hh
             simp only [cgS, Frag.wsGS, (h2 _).1, (h2 _).2, and_self]
@@ -139,7 +148,7 @@ theorem cg_loops_irrel (mod fn : String) (φ : String → Option String) : ∀ (
       cases ss with
       | nil => exact ⟨rfl, rfl⟩
       | cons st ss =>
-        simp only [Frag.okGSs, Bool.and_eq_true] at hok
+        simp only [Frag.okFSs, Bool.and_eq_true] at hok
         simp only [Frag.depthGSs] at hd
         have h1 := ihS il rt loops loops' st env (by omega) hok.1 hh
         have h2 := fun env' => ihSs il rt loops loops' ss env' (by omega) hok.2 hh
@@ -147,18 +156,119 @@ theorem cg_loops_irrel (mod fn : String) (φ : String → Option String) : ∀ (
     · intro il rt loops loops' b env hd hok hh
       obtain ⟨bsp, bty, stmts, oe⟩ := b
       cases oe with
-      | some _ => simp [Frag.okGBS] at hok
+      | some _ => simp [Frag.okFBS] at hok
       | none =>
-        simp only [Frag.okGBS] at hok
+        simp only [Frag.okFBS] at hok
         simp only [Frag.depthGBS] at hd
         have h := fun env' => ihSs il rt loops loops' stmts env' (by omega) hok hh
         simp only [cgBS, Frag.wsGBS, (h _).1, (h _).2, and_self]
 
 /-- Inside a `try` body (no `break`/`continue` to the outside) the loop stack is irrelevant. -/
 theorem cgBS_loops_irrel (mod fn : String) (φ : String → Option String) (rt : Bool) (loops : List (String × String))
-    (b : Block) (env : CEnv) (h : Frag.okGBS false rt b = true) :
+    (b : Block) (env : CEnv) (h : Frag.okFBS fr false rt b = true) :
     cgBS mod fn φ loops b env = cgBS mod fn φ [] b env ∧
     Frag.wsGBS mod fn φ loops b env = Frag.wsGBS mod fn φ [] b env :=
   (cg_loops_irrel mod fn φ (Frag.depthGBS b)).2.2 false rt loops [] b env (Nat.le_refl _) h (by simp)
+
+/-- Allowing `for` loops enlarges the fragment. -/
+theorem okFS_mono (fr : Bool) : ∀ (n : Nat),
+    (∀ (il rt : Bool) (st : Stmt), Frag.depthGS st ≤ n → Frag.okFS false il rt st = true →
+      Frag.okFS fr il rt st = true) ∧
+    (∀ (il rt : Bool) (ss : List Stmt), Frag.depthGSs ss ≤ n → Frag.okFSs false il rt ss = true →
+      Frag.okFSs fr il rt ss = true) ∧
+    (∀ (il rt : Bool) (b : Block), Frag.depthGBS b ≤ n → Frag.okFBS false il rt b = true →
+      Frag.okFBS fr il rt b = true) := by
+  intro n
+  induction n with
+  | zero =>
+    refine ⟨?_, ?_, ?_⟩
+    · intro il rt st hd; have := depthGS_pos st; omega
+    · intro il rt ss hd; cases ss <;> simp [Frag.depthGSs] at hd
+    · intro il rt b hd; obtain ⟨_, _, _, _⟩ := b; simp [Frag.depthGBS] at hd
+  | succ n ih =>
+    obtain ⟨ihS, ihSs, ihB⟩ := ih
+    refine ⟨?_, ?_, ?_⟩
+    · intro il rt st hd hok
+      cases st
+      case typedef | trigger => simp [Frag.okFS] at hok
+      case forS sp name vty iter body =>
+        obtain ⟨bsp, bty, stmts, boe⟩ := body
+        cases iter <;> try (simp [Frag.okFS] at hok; done)
+        cases boe <;> simp [Frag.okFS] at hok
+      case letS sp name vty nc oty e => cases nc <;> exact hok
+      case ret sp oe => cases oe <;> exact hok
+      case brk sp => exact hok
+      case cont sp => exact hok
+      case whileS sp c body =>
+        simp only [Frag.okFS, Bool.and_eq_true] at hok ⊢
+        simp only [Frag.depthGS] at hd
+        exact ⟨hok.1, ihB true rt body (by omega) hok.2⟩
+      case loopS sp body =>
+        simp only [Frag.okFS] at hok ⊢
+        simp only [Frag.depthGS] at hd
+        exact ihB true rt body (by omega) hok
+      case exprS sp e =>
+        cases e <;> try (simp [Frag.okFS] at hok; done)
+        case assign asp op l r =>
+          cases op <;> cases l <;> try (simp [Frag.okFS] at hok; done)
+          all_goals (rename_i g _ sg; cases g <;> cases sg <;> first | exact hok | simp [Frag.okFS] at hok)
+        case call csp cty base args sw =>
+          cases base <;> try (simp [Frag.okFS] at hok; done)
+          exact hok
+        case ifE isp ty c t el =>
+          cases el with
+          | some eb =>
+            simp only [Frag.okFS, Bool.and_eq_true] at hok ⊢
+            simp only [Frag.depthGS] at hd
+            exact ⟨⟨hok.1.1, ihB il rt t (by omega) hok.1.2⟩, ihB il rt eb (by omega) hok.2⟩
+          | none =>
+            simp only [Frag.okFS, Bool.and_eq_true] at hok ⊢
+            simp only [Frag.depthGS] at hd
+            exact ⟨hok.1, ihB il rt t (by omega) hok.2⟩
+        case tryE tsp ty t ci c =>
+          simp only [Frag.okFS, Bool.and_eq_true] at hok ⊢
+          simp only [Frag.depthGS] at hd
+          exact ⟨⟨hok.1.1, ihB false false t (by omega) hok.1.2⟩, ihB il rt c (by omega) hok.2⟩
+        case matchE msp ty c arms dflt =>
+          cases dflt with
+          | none => simp [Frag.okFS] at hok
+          | some d =>
+            cases d <;> try (simp [Frag.okFS] at hok; done)
+            rename_i db
+            simp only [Frag.okFS, Bool.and_eq_true] at hok ⊢
+            simp only [Frag.depthGS] at hd
+            have harms : ∀ (arms : List (List Expr × Expr)), Frag.depthGArmsS arms ≤ n →
+                Frag.okFArmsS false il rt arms = true → Frag.okFArmsS fr il rt arms = true := by
+              intro arms
+              induction arms with
+              | nil => intro _ _; rfl
+              | cons a rest iha =>
+                intro hda hoka
+                obtain ⟨lits, act⟩ := a
+                cases act <;> try (simp [Frag.okFArmsS] at hoka; done)
+                rename_i b
+                simp only [Frag.okFArmsS, Bool.and_eq_true] at hoka ⊢
+                simp only [Frag.depthGArmsS] at hda
+                exact ⟨⟨hoka.1.1, ihB il rt b (by omega) hoka.1.2⟩, iha (by omega) hoka.2⟩
+            exact ⟨⟨hok.1.1, harms arms (by omega) hok.1.2⟩, ihB il rt db (by omega) hok.2⟩
+    · intro il rt ss hd hok
+      cases ss with
+      | nil => rfl
+      | cons st ss =>
+        simp only [Frag.okFSs, Bool.and_eq_true] at hok ⊢
+        simp only [Frag.depthGSs] at hd
+        exact ⟨ihS il rt st (by omega) hok.1, ihSs il rt ss (by omega) hok.2⟩
+    · intro il rt b hd hok
+      obtain ⟨bsp, bty, stmts, oe⟩ := b
+      cases oe with
+      | some _ => simp [Frag.okFBS] at hok
+      | none =>
+        simp only [Frag.okFBS] at hok ⊢
+        simp only [Frag.depthGBS] at hd
+        exact ihSs il rt stmts (by omega) hok
+
+theorem okFSs_of_okGSs (fr il rt : Bool) (ss : List Stmt) (h : Frag.okGSs il rt ss = true) :
+    Frag.okFSs fr il rt ss = true :=
+  (okFS_mono fr (Frag.depthGSs ss)).2.1 il rt ss (Nat.le_refl _) h
 
 end HmsProofs.Sim
